@@ -1444,6 +1444,274 @@ func (h *harness) builderCase() {
 	h.nesting(names, v < pdf.V2_0, "builder-names")
 }
 
+// cloneObj: a deep copy of a native value (fresh maps, arrays and strings).
+func cloneObj(o pdf.Object) pdf.Object {
+	switch x := o.(type) {
+	case pdf.String:
+		return pdf.String(append([]byte(nil), x...))
+	case pdf.Array:
+		if x == nil {
+			return x
+		}
+		y := make(pdf.Array, len(x))
+		for i, v := range x {
+			y[i] = cloneObj(v)
+		}
+		return y
+	case pdf.Dict:
+		if x == nil {
+			return x
+		}
+		y := make(pdf.Dict, len(x))
+		for k, v := range x {
+			y[k] = cloneObj(v)
+		}
+		return y
+	}
+	return o
+}
+
+// builderAliasing: aliasing between Builder calls.  The caller keeps a few Go values (image
+// dictionaries with nested arrays and strings, data slices with spare capacity, strings, kerning
+// arrays, dash patterns, MarkedContent structs), passes the SAME values to several calls, and
+// changes them between the calls and after the last one.  Checked:
+//   (a) the stream is what BuilderModel.build_ops gives for the values each call saw (case BA,
+//       model vs implementation), equals the stream of a Builder that was given private copies,
+//       and re-reads as that operator sequence;
+//   (b) no call changes a caller-owned argument (deep comparison before/after every call).
+func (h *harness) builderAliasing() {
+	r := h.e.Rand
+	v := []pdf.Version{pdf.V1_3, pdf.V1_7, pdf.V2_0, pdf.V2_0}[r.IntN(4)]
+	b := builder.New(content.Page, nil, v)
+	ref := builder.New(content.Page, nil, v) // the same calls with private copies
+	dicts := []pdf.Dict{
+		{"W": pdf.Integer(1 + r.IntN(4)), "H": pdf.Integer(2), "BPC": pdf.Integer(8)},
+		{"W": pdf.Integer(3), "H": pdf.Integer(1), "CS": pdf.Array{pdf.Name("I"), pdf.Name("G"), pdf.Integer(1), pdf.String("ab")}},
+		{"Width": pdf.Integer(2), "Height": pdf.Integer(2), "D": pdf.Array{pdf.Integer(0), pdf.Integer(1)}},
+	}
+	datas := make([][]byte, 3)
+	for i := range datas {
+		buf := make([]byte, 0, 64)
+		if r.IntN(2) == 0 {
+			buf = append(buf, imgData[r.IntN(len(imgData))]...)
+		} else {
+			buf = append(buf, h.rbytes(20)...)
+		}
+		datas[i] = buf
+	}
+	strs := []pdf.String{pdf.String("abc"), pdf.String(h.rbytes(6)), pdf.String("(x)")}
+	arrs := []pdf.Array{{pdf.String("AV"), pdf.Integer(-120), pdf.String("A")}, {pdf.String(h.rbytes(4)), pdf.Integer(r.IntN(50))}}
+	dashes := [][]float64{{3, 1.5}, {float64(r.IntN(5)), 2, 1}}
+	mcs := []*graphics.MarkedContent{{Tag: "Span"}, {Tag: "P"}}
+
+	snapshot := func() string {
+		var sb strings.Builder
+		for _, d := range dicts {
+			sb.WriteString(raw(d) + "|")
+		}
+		for _, d := range datas {
+			sb.WriteString(hx(d) + "|")
+		}
+		for _, s := range strs {
+			sb.WriteString(hx(s) + "|")
+		}
+		for _, a := range arrs {
+			sb.WriteString(raw(a) + "|")
+		}
+		fmt.Fprintf(&sb, "%v|%v %v", dashes, *mcs[0], *mcs[1])
+		return sb.String()
+	}
+	mutate := func() {
+		switch r.IntN(9) {
+		case 0: // the data slice: other length, other bytes, same backing array
+			j := r.IntN(len(datas))
+			n := r.IntN(40)
+			datas[j] = datas[j][:n]
+			for i := range datas[j] {
+				datas[j][i] = byte('a' + r.IntN(26))
+			}
+		case 1:
+			j := r.IntN(len(datas))
+			if len(datas[j]) > 0 {
+				datas[j][r.IntN(len(datas[j]))] ^= 0x55
+			}
+		case 2:
+			dicts[r.IntN(len(dicts))]["BPC"] = pdf.Integer(1 << r.IntN(4))
+		case 3:
+			delete(dicts[0], "BPC")
+			dicts[1]["CS"].(pdf.Array)[2] = pdf.Integer(r.IntN(200))
+		case 4:
+			if s, ok := dicts[1]["CS"].(pdf.Array)[3].(pdf.String); ok && len(s) > 0 {
+				s[0] ^= 1
+			}
+		case 5:
+			j := r.IntN(len(strs))
+			if len(strs[j]) > 0 {
+				strs[j][0] = byte('A' + r.IntN(26))
+			}
+		case 6:
+			a := arrs[r.IntN(len(arrs))]
+			a[1] = pdf.Integer(r.IntN(300) - 150)
+			if s, ok := a[0].(pdf.String); ok && len(s) > 0 {
+				s[len(s)-1] = byte('a' + r.IntN(26))
+			}
+		case 7:
+			dashes[r.IntN(len(dashes))][0] = float64(1 + r.IntN(9))
+		case 8:
+			mcs[r.IntN(2)].Tag = []pdf.Name{"Span", "P", "Artifact", "Figure"}[r.IntN(4)]
+		}
+	}
+
+	var calls, names []string
+	ncalls := 0
+	add := func(enc, name string) {
+		calls = append(calls, enc)
+		names = append(names, name)
+		ncalls++
+	}
+	inText, depth := false, 0
+	n := 2 + r.IntN(10)
+	for i := 0; i < n && b.Err == nil && ref.Err == nil; i++ {
+		before := snapshot()
+		k := r.IntN(10)
+		func() {
+			defer func() {
+				if rec := recover(); rec != nil && b.Err == nil {
+					b.Err = fmt.Errorf("panic: %v", rec)
+				}
+			}()
+			switch {
+			case k <= 3 && !inText:
+				di, dj := r.IntN(len(dicts)), r.IntN(len(datas))
+				if i%3 == 2 { // the classic: the same dictionary again, other data
+					di = 0
+				}
+				add("I "+raw(dicts[di])+" "+hx(datas[dj]), fmt.Sprintf("Image(d%d,b%d)", di, dj))
+				ref.DrawInlineImageRaw(cloneObj(dicts[di]).(pdf.Dict), append([]byte(nil), datas[dj]...))
+				b.DrawInlineImageRaw(dicts[di], datas[dj])
+			case k <= 3 || k == 4:
+				if !inText {
+					add("P 4254", "BT")
+					ref.TextBegin()
+					b.TextBegin()
+					inText = true
+					return
+				}
+				j := r.IntN(len(strs))
+				switch r.IntN(3) {
+				case 0:
+					add("T "+hx(strs[j]), fmt.Sprintf("Tj(s%d)", j))
+					ref.TextShowRaw(cloneObj(strs[j]).(pdf.String))
+					b.TextShowRaw(strs[j])
+				case 1:
+					add("Q "+hx(strs[j]), fmt.Sprintf("'(s%d)", j))
+					ref.TextShowNextLineRaw(cloneObj(strs[j]).(pdf.String))
+					b.TextShowNextLineRaw(strs[j])
+				default:
+					a := arrs[r.IntN(len(arrs))]
+					add("K "+raw(a), "TJ")
+					ref.TextShowKernedRaw(cloneObj(a).(pdf.Array)...)
+					b.TextShowKernedRaw(a...)
+				}
+			case k == 5:
+				if inText {
+					add("P 4554", "ET")
+					ref.TextEnd()
+					b.TextEnd()
+					inText = false
+				} else if depth > 0 && r.IntN(2) == 0 {
+					add("P 51", "Q")
+					ref.PopGraphicsState()
+					b.PopGraphicsState()
+					depth--
+				} else {
+					add("P 71", "q")
+					ref.PushGraphicsState()
+					b.PushGraphicsState()
+					depth++
+				}
+			case k == 6:
+				mc := mcs[r.IntN(2)]
+				add("M "+hx([]byte(mc.Tag)), "MP")
+				cp := *mc
+				ref.MarkedContentPoint(&cp)
+				b.MarkedContentPoint(mc)
+			default:
+				// the dash pattern is outside the model (floats): compared with the reference only
+				p := dashes[r.IntN(len(dashes))]
+				ph := float64(r.IntN(3))
+				names = append(names, "d")
+				ref.SetLineDash(append([]float64(nil), p...), ph)
+				b.SetLineDash(p, ph)
+			}
+		}()
+		h.e.Evaluations++
+		if after := snapshot(); after != before {
+			h.nsig["builder-changes-argument"]++
+			if h.nsig["builder-changes-argument"] <= 5 {
+				h.e.Fail("builder-changes-argument", fmt.Sprintf("Builder call %s (version %v) changes a value owned by the caller: before %s, after %s; calls %v", names[len(names)-1], v, before, after, names),
+					map[string]any{"calls": names, "version": v.String(), "before": before, "after": after})
+			}
+			return
+		}
+		for m := r.IntN(3); m > 0; m-- {
+			mutate()
+			names = append(names, "mutate")
+		}
+	}
+	h.e.Count(true, "alias"+strings.Join(names, ","), "builder-aliasing")
+	if b.Err != nil || ref.Err != nil {
+		if (b.Err == nil) != (ref.Err == nil) {
+			h.e.Fail("builder-aliasing", fmt.Sprintf("Builder (version %v) accepts a call sequence with shared arguments but not with private copies, or vice versa: %v / %v; calls %v", v, b.Err, ref.Err, names), map[string]any{"calls": names})
+		}
+		h.e.Dist["builder-aliasing:rejected"]++
+		return
+	}
+	// the caller goes on using its values after the last call
+	for m := 0; m < 12; m++ {
+		mutate()
+	}
+	got := opsCanon(b.Stream)
+	if want := opsCanon(ref.Stream); got != want {
+		// the finding inline-image-arguments-aliased has its own signature: only %image%
+		// operators differ
+		sig := "builder-aliasing"
+		if len(b.Stream) == len(ref.Stream) {
+			onlyImages := true
+			for i := range b.Stream {
+				if opCanon(b.Stream[i].Name, b.Stream[i].Args) != opCanon(ref.Stream[i].Name, ref.Stream[i].Args) && b.Stream[i].Name != content.OpInlineImage {
+					onlyImages = false
+				}
+			}
+			if onlyImages {
+				sig = "inline-image-arguments-aliased"
+			}
+		}
+		h.nsig[sig]++
+		if h.nsig[sig] <= 5 {
+			h.e.Fail(sig, fmt.Sprintf("Builder (version %v): the stream depends on what the caller does with its own values: with shared, later modified arguments %s, with private copies %s; calls %v", v, got, want, names),
+				map[string]any{"calls": names, "version": v.String(), "got": got, "want": want})
+		}
+		return
+	}
+	// model vs implementation: the operators as a function of the per-call values (without d)
+	var modelled []content.Operator
+	for _, op := range b.Stream {
+		if op.Name != content.OpSetLineDash {
+			modelled = append(modelled, op)
+		}
+	}
+	id := h.id("A")
+	v2 := 0
+	if v >= pdf.V2_0 {
+		v2 = 1
+	}
+	h.e.Line("cases.txt", "%s BA %d %d %s", id, v2, ncalls, strings.Join(calls, " "))
+	h.e.Line("impl.obs", "%s %s", id, opsCanon(modelled))
+	// and the stream re-reads as the operators written
+	h.operators(append([]content.Operator(nil), b.Stream...), "builder-aliasing-output")
+}
+
 // builderScenarios: for every version class and every way of resetting the Builder, the rules
 // of the version are still enforced afterwards: q/Q inside a text object and q nesting deeper
 // than 28 are errors before PDF 2.0, and whatever the Builder accepts is valid for a fresh State.
@@ -1694,6 +1962,10 @@ func phase1() {
 	// 7. Builder call sequences
 	h.pfx = "b"
 	h.builderScenarios()
+	h.pfx = "A"
+	for i := 0; i < e.Pick(1500, 40000); i++ {
+		h.builderAliasing()
+	}
 	for i := 0; i < e.Pick(3000, 100000); i++ {
 		h.builderCase()
 	}
